@@ -37,8 +37,11 @@ pub fn corpus(seed: u64, draws: u64, foreign_ls: &[usize]) -> Vec<CorpusFrame> {
             };
             attempt += 1;
             if let Some(f) = gen_frame(&mut b, &spec) {
-                out.push(CorpusFrame { label: format!("lib:{}#{}", n, got), bytes: f });
-                got += 1;
+                // only frames the REFERENCE accepts are valid carriers for C04 faults
+                if matches!(crate::refmodel::ref_accept(&f), crate::refmodel::Accept::Accept(l) if l + 6 == f.len()) {
+                    out.push(CorpusFrame { label: format!("lib:{}#{}", n, got), bytes: f });
+                    got += 1;
+                }
             }
         }
     }
